@@ -123,7 +123,8 @@ def normalise(out):
                            tasks=[dict(pid=p["pid"], tid=t["tid"], nid=t["nid"], kind=t["type"].capitalize(), state=STATE_MAP.get(t["state"], t["state"]),
                                        prev=t["prev"], data=t.get("data") or {}, start_time=t.get("start_time", 0), end_time=t.get("end_time", 0),
                                        timestamp=t.get("timestamp", 0)) for t in p["tasks"]]))
-        snaps.append(dict(procs=sp, nmsg=sn["nmsg"], nevents=sn["nevents"], ntrace=sn.get("ntrace", 0)))
+        snaps.append(dict(procs=sp, nmsg=sn["nmsg"], nevents=sn["nevents"], ntrace=sn.get("ntrace", 0), live=sn.get("live", []),
+                          stored_procs=sn.get("stored_procs", []), stored_tasks=sn.get("stored_tasks", [])))
     kinds = {}
     for p in procs:
         for t in p["tasks"]:
@@ -131,4 +132,4 @@ def normalise(out):
     trace = [dict(pid=e["pid"], tid=e["tid"], how=e["how"], old=STATE_MAP.get(e["old"], e["old"]), new=STATE_MAP.get(e["new"], e["new"]),
                   kind=kinds.get(e["tid"], "?")) for e in out.get("trace", [])]
     return dict(procs=procs, messages=msgs, events=evs, results=out.get("results", []), trace=trace, live=out.get("live", []),
-                stored_messages=out.get("stored_messages", []), snapshots=snaps)
+                stored_messages=out.get("stored_messages", []), snapshots=snaps, stored_procs=out.get("stored_procs", []), stored_tasks=out.get("stored_tasks", []))
